@@ -299,6 +299,69 @@ def derived_in_new_rule(repo: Repo, rep: Report, rid: str) -> None:
               fi.loc(bad[0]) if bad else fi.loc())
 
 
+def field_source_rule(repo: Repo, rep: Report, rid: str) -> None:
+    rep.rule(rid, "one field list everywhere: every reader generation (Compiler.compile and the recompilation in _update_fields) is fed the ordered "
+                  "field list (__fields__ / the 'fields' parameter it was computed from), never a name-keyed view (lookup / fields), in which repeated "
+                  "names such as '_' collapse")
+    from ..util import resolve_local
+
+    n = 0
+    for fi in repo.all_functions():
+        if fi.module.rel not in ("compiler.py", "types/structure.py"):
+            continue
+        for c in ast.walk(fi.node):
+            if isinstance(c, ast.Call) and call_name(c) in ("compile_read", "_ReadSourceGenerator") and c.args:
+                a0 = c.args[1] if call_name(c) == "_ReadSourceGenerator" and len(c.args) > 1 else c.args[0]
+                src = resolve_local(fi.node, a0) if isinstance(a0, ast.Name) else a0
+                t = norm(src) if src is not None else ""
+                n += 1
+                keyed = any(k_ in t for k_ in (".lookup", ".fields.", ".fields)", "lookup.values", "fields.values")) or t.endswith(".fields")
+                ok = ("__fields__" in t or (isinstance(src, ast.Name) and src.id in fi.params)) and not keyed
+                rep.check(ok, rid, f"{fi.key}:{short(c, 50)}", "generated from the ordered field list",
+                          f"{fi.qualname} generates a reader from '{t[:60]}', not from the ordered field list: fields that share a name (repeated '_' padding) "
+                          "are missing from it, while a recompilation after add_field sees them all", fi.loc(c))
+    rep.floor(rid, "reader generation call sites", n, 2)
+
+
+def add_field_fold_rule(repo: Repo, rep: Report, rid: str) -> None:
+    rep.rule(rid, "add_field accepts what a one-piece definition accepts: StructureMetaType.add_field interpreted on a structure that already has a '_' "
+                  "member (and on a fresh one), inside and outside an update block: the field is appended to __fields__ and committed unless an "
+                  "update block is open - it never refuses a name itself (duplicate detection is the commit's, which exempts '_')")
+    from ..minieval import Evaluator, Host, Raised, Refused, Sym, UserFunc
+
+    fi = repo.func("types/structure.py", "StructureMetaType.add_field")
+    bad = []
+    cases = 0
+    try:
+        for existing in ([], ["_"], ["a", "_"]):
+            for updating in (False, True):
+                for name in ("_", "b"):
+                    log = []
+                    fields = [Sym(f"f:{n_}", {"name": n_, "_name": n_}) for n_ in existing]
+                    cls = Sym("S", {"__fields__": list(fields), "fields": {f.attrs["name"]: f for f in fields}, "lookup": {f.attrs["name"]: f for f in fields},
+                                    "__updating__": updating, "__align__": False}, {"commit": Host(lambda log=log: log.append("commit"))})
+
+                    def field(n_, t_, bits=None, offset=None):
+                        return Sym(f"f:{n_}", {"name": n_, "_name": n_, "type": t_, "bits": bits, "offset": offset})
+
+                    env = {"Field": Host(field)}
+                    cases += 1
+                    try:
+                        Evaluator(env, steps=2000).call_user(UserFunc(fi.node), [cls, name, Sym("uint8")], {})
+                    except Raised as e:
+                        bad.append((existing, updating, name, f"raised {e}"))
+                        continue
+                    names = [f.attrs["name"] for f in cls.attrs["__fields__"]]
+                    if names != existing + [name] or (log == ["commit"]) == updating:
+                        bad.append((existing, updating, name, f"fields {names}, commits {log}"))
+    except Refused:
+        rep.ok(rid, f"{fi.key}:fold", "not foldable with the evaluator's whitelist", fi.loc(), nontrivial=False)
+        return
+    rep.check(not bad, rid, f"{fi.key}:fold", f"{cases} cases: appended, committed outside an update block",
+              (f"add_field({bad[0][2]!r}, ...) on a structure with fields {bad[0][0]} ({'inside' if bad[0][1] else 'outside'} an update block): {bad[0][3]}: a member "
+               "sequence that a one-piece definition accepts cannot be built step by step") if bad else "", fi.loc())
+
+
 def run(repo: Repo, rep: Report, tier: str) -> None:
     commit_rule(repo, rep, "C18.R1")
     refresh_rule(repo, rep, "C18.R2")
@@ -324,7 +387,5 @@ def run(repo: Repo, rep: Report, tier: str) -> None:
 
     call_shortcut_rule(repo, rep, "C18.R9")
     derived_in_new_rule(repo, rep, "C18.R10")
-
-
-
-
+    field_source_rule(repo, rep, "C18.R11")
+    add_field_fold_rule(repo, rep, "C18.R12")
